@@ -49,14 +49,29 @@ def decomposition(vc, cfg):
     if not vc.symbolic:
         return _native(vc, cfg, d, mask)
     symsci.NMF.instances.clear()
-    o = vc.call(L.lsq_linear_decomposition, d["A"], d["B"], n_layers=nl, mask=mask, max_iter=2, seed=7, subsample=None, return_pred=True,
-                equal_l1norm_constraint=cfg["equal_l1"], **lsq.call_kwargs(d))
+    sub = cfg.get("subsample")
+    if cfg.get("pbounds"):
+        lbp, ubp = vc.real("lbp"), vc.real("ubp")
+        vc.assume(vc.ge(lbp, 0))
+        vc.assume(vc.lt(lbp, ubp))
+    else:
+        lbp, ubp = 0, 1
+    o = vc.call(L.lsq_linear_decomposition, d["A"], d["B"], n_layers=nl, mask=mask, max_iter=2, seed=7, subsample=sub, return_pred=True,
+                equal_l1norm_constraint=cfg["equal_l1"], lbp=lbp, ubp=ubp, **lsq.call_kwargs(d))
     facts = list(vc.facts)
     # every sub-problem is feasible (X = 0 satisfies mask / equal-L1 / bounds since lb = 0 <= ub; P = lbp): refute 'infeasible'
     for f in facts:
         if getattr(f, "infeasible", False):
             v = f.problem.variables()[0]
-            f.instantiate_infeasible({v: np.zeros(v.shape, dtype=object)})
+            wit = np.zeros(v.shape, dtype=object)
+            if cfg.get("pbounds"):
+                # P-problems: the lower opacity bound is a feasible point; X-problems: zero intensities
+                is_p = any(p_.shape == (nl, ns) for p_ in f.params) or v.shape[1] == nl and v.shape != (nl, ns)
+                if is_p or (v.shape == (nl, ns) and False):
+                    wit = np.full(v.shape, lbp, dtype=object)
+            f.instantiate_infeasible({v: wit})
+            if cfg.get("pbounds") and v.shape == (nl, ns) == (m, nl):
+                f.instantiate_infeasible({v: np.full(v.shape, lbp, dtype=object)})
     if not vc.returns("terminates-normally", o):
         return
     X, Pm, pred = (np.asarray(v) for v in o.value)
@@ -71,21 +86,41 @@ def decomposition(vc, cfg):
             vc.prove(f"equal total intensity in layers 0 and {l}", vc.eq(sum(X[l, k] for k in range(ns)), sum(X[0, k] for k in range(ns))))
     for r in range(m):
         for l in range(nl):
-            vc.prove(f"opacity[{r},{l}] within [0, 1]", vc.and_(vc.ge(Pm[r, l], 0), vc.le(Pm[r, l], 1)))
+            vc.prove(f"opacity[{r},{l}] within [lbp, ubp]", vc.and_(vc.ge(Pm[r, l], lbp), vc.le(Pm[r, l], ubp)))
         x = [sum(Pm[r, l] * X[l, k] for l in range(nl)) for k in range(ns)]
         t = lsq.T(d, x)
         for j in range(nf):
             vc.prove(f"pred[{r},{j}] == model capture of opacities times intensities", vc.eq(pred[r, j], t[j], scale=1.0))
     # which solves happened on this path: X-problems have an (nl x ns) variable, P-problems an (m x nl) one
     live = [f for f in facts if not getattr(f, "infeasible", False)]
+    if sub:
+        # after subsampling the full-size opacities are refitted once more given the final X
+        vc.prove("subsampling: one final full-size P refit", len(live) >= 4 and live[-1].problem.variables()[0].shape == (m, nl))
+        pfull = live[-1]
+        live = live[:-1]
+        vc.prove("returned P is the full-size refit", all(Pm[r, l] is pfull.xstar[pfull.problem.variables()[0]][r, l] for r in range(m) for l in range(nl)))
+        msub = live[1].problem.variables()[0].shape[0]
+    else:
+        msub = m
     xs, ps = live[0::2], live[1::2]   # the code alternates X-step, P-step, ..., final X refit
     vc.prove("solve order: X-problems (nl x ns variable) and P-problems (m x nl variable) alternate",
-             all(f.problem.variables()[0].shape == (nl, ns) for f in xs) and all(f.problem.variables()[0].shape == (m, nl) for f in ps))
+             all(f.problem.variables()[0].shape == (nl, ns) for f in xs) and all(f.problem.variables()[0].shape == (msub, nl) for f in ps))
     vc.prove("alternating X / P solves and one final X refit", len(xs) == len(ps) + 1 and len(ps) in (1, 2), detail=f"{len(xs)} X-solves, {len(ps)} P-solves")
     if len(xs) != len(ps) + 1:
         return
     Xs = [f.xstar[f.problem.variables()[0]] for f in xs]
     Ps = [f.xstar[f.problem.variables()[0]] for f in ps]
+    if sub:
+        vc.prove("returned X is the final refit", all(X[l, k] is Xs[-1][l, k] for l in range(nl) for k in range(ns)))
+        # full-size refit is optimal given X: competitor Q
+        Q = vc.array("Q", (m, nl))
+        fq, _ = pfull.instantiate({pfull.problem.variables()[0]: np.asarray(Q, dtype=object)})
+        qok = vc.all_(vc.and_(vc.ge(Q[r, l], lbp), vc.le(Q[r, l], ubp)) for r in range(m) for l in range(nl))
+        vc.prove("formulation: admissible Q is code-feasible for the full P refit", vc.implies(qok, fq))
+        vc.prove("returned P is globally optimal given the returned X", vc.implies(qok, vc.le(_loss2(vc, d, Pm, X, m, nf, ns, nl), _loss2(vc, d, Q, X, m, nf, ns, nl))))
+        rngs = [e for e in symsci.NMF.instances]
+        vc.prove("initialisation is NMF(random_state=seed)", len(rngs) == 1 and rngs[0].random_state == 7)
+        return
     vc.prove("returned X is the final refit, returned P the last P-step", all(X[l, k] is Xs[-1][l, k] for l in range(nl) for k in range(ns)) and all(Pm[r, l] is Ps[-1][r, l] for r in range(m) for l in range(nl)))
     # last factor optimal given the other: competitor Z
     Z = vc.array("Z", (nl, ns))
@@ -171,7 +206,8 @@ def dispatch(vc, cfg):
 
 def _cfgs(tier):
     base = dict(nf=2, ns=2, m=2, lb="none", ub="fin", W="none", K="none", baseline="none")
-    out = [dict(base, layers=1, mask=None, equal_l1=True), dict(base, layers=2, mask=[[1, 0], [1, 1]], equal_l1=True), dict(base, layers=2, mask=None, equal_l1=False)]
+    out = [dict(base, layers=1, mask=None, equal_l1=True), dict(base, layers=2, mask=[[1, 0], [1, 1]], equal_l1=True), dict(base, layers=2, mask=None, equal_l1=False),
+           dict(base, layers=1, mask=None, equal_l1=True, subsample=0.5, pbounds=True)]
     if tier != "quick":
         out += [dict(base, layers=2, mask=[[1, 0], [0, 1]], equal_l1=True, K="vector", baseline="vector", W="receptor"), dict(base, ns=3, layers=2, mask=[[1, 1, 0], [0, 1, 1]], equal_l1=True),
                 dict(base, layers=3, mask=None, equal_l1=True)]
